@@ -48,7 +48,14 @@ def eval_task(task):
         world = task["world"]
     else:
         world = gen_put_world(task_rng(pid, seed, i), cfg.get("profile", "mixed"))
-    r = putcheck.evaluate(world, driver(), oracles=cfg["oracles"], want_states=cfg.get("states", False))
+        if task.get("force_verbose"):
+            from .model import put_argv
+            world["opts"] = dict(world["opts"], verbose=task["force_verbose"])
+            world["argv"] = put_argv(world["opts"], world["args"])
+    r = putcheck.evaluate(world, driver(), oracles=cfg["oracles"], want_states=cfg.get("states", False), plan=task.get("plan"))
+    if task.get("plan", {}) and task["plan"].get("stderr_fault"):
+        r["mismatch"] = []          # (the model has no failing stderr: the oracle alone judges these runs)
+        r["oracle"] = {k_: v_ for k_, v_ in r["oracle"].items() if k_ in ("C01", "C04")}
     out = {"key": (tuple(world["args"]), repr(sorted(world.get("opts", {}).items())), len(world["nodes"]), world["cwd"],
                    tuple(world["mounts"])),
            "tags": world_tags(world) + r["tags"], "summary": world_summary(world),
